@@ -857,6 +857,15 @@ func (e *sched) binop(st *sState, x *ssa.BinOp) sVal {
 	if as == nil || bs == nil {
 		return sOpaque{"binop on " + fmt.Sprintf("%T,%T", a, b)}
 	}
+	// x & (2^k-1) and x >> k on a linear form over input bits: the part of the form that is a multiple of 2^k and the rest
+	// separate when the rest stays inside [0, 2^k)
+	if as.bits == nil && len(as.lin) > 0 {
+		if c, ok := constOf(b); ok {
+			if r := e.linSplit(st, x.Op, as, c); r != nil {
+				return r
+			}
+		}
+	}
 	// a bit operation on a linear form that depends on a single unknown bit: evaluate both cases and interpolate
 	switch x.Op {
 	case token.AND, token.OR, token.XOR, token.AND_NOT, token.SHL, token.SHR, token.REM, token.QUO:
@@ -918,6 +927,13 @@ func (e *sched) binop(st *sState, x *ssa.BinOp) sVal {
 				}
 			}
 			return symFromBits(nb)
+		}
+		// a linear form over input bits that stays far from the width of the type: a multiplication
+		if lo, hi, ok := st.rangeOf(as); ok && k < 32 {
+			lim := new(big.Rat).SetInt(pow2(30))
+			if hi.Cmp(lim) < 0 && lo.Cmp(new(big.Rat).Neg(lim)) > 0 {
+				return symLin(linAddScaled(map[string]*big.Rat{}, as.lin, new(big.Rat).SetInt(pow2(uint(k)))))
+			}
 		}
 		return sOpaque{"shift of a value without bit structure"}
 	case token.AND, token.OR, token.XOR, token.AND_NOT:
@@ -1331,4 +1347,192 @@ func (e *sched) affineLookup(st *sState, arr *hArray, idx *sSym, what string) (p
 		out[pfKey("", base)] = beta
 	}
 	return out, true
+}
+
+// linParts splits a linear form over input bits (integer coefficients, known bits substituted) at 2^k: hi collects the terms
+// that are multiples of 2^k, lo the rest; the constant is split as well. free lists the unknown atoms of lo.
+func (e *sched) linParts(st *sState, as *sSym, k uint) (hi, lo map[string]*big.Rat, free []string, ok bool) {
+	m := pow2(k)
+	hi, lo = map[string]*big.Rat{}, map[string]*big.Rat{}
+	konst := new(big.Int)
+	for a, c := range as.lin {
+		if !c.IsInt() {
+			return nil, nil, nil, false
+		}
+		switch {
+		case a == "" || st.ones[a]:
+			konst.Add(konst, c.Num())
+		case st.zeros[a]:
+		case isDigitAtom(a) || strings.HasPrefix(a, "len("):
+			return nil, nil, nil, false
+		case new(big.Int).Mod(c.Num(), m).Sign() == 0:
+			hi[a] = c
+		default:
+			lo[a] = c
+			free = append(free, a)
+		}
+	}
+	cl := new(big.Int).Mod(konst, m) // Euclidean: 0 <= cl < 2^k
+	ch := new(big.Int).Sub(konst, cl)
+	if cl.Sign() != 0 {
+		lo[""] = new(big.Rat).SetInt(cl)
+	}
+	if ch.Sign() != 0 {
+		hi[""] = new(big.Rat).SetInt(ch)
+	}
+	sort.Strings(free)
+	return hi, lo, free, true
+}
+
+// linFits: the low part stays inside [0, 2^k)
+func (e *sched) linFits(st *sState, lo map[string]*big.Rat, k uint) bool {
+	l, h, ok := st.rangeOf(&sSym{lin: lo})
+	return ok && l.Sign() >= 0 && h.Cmp(new(big.Rat).SetInt(pow2(k))) < 0
+}
+
+// linSplit: as & (2^k-1) (c = 2^k-1) or as >> k (c = k) for a linear form without bit structure; nil when the rule does not apply
+func (e *sched) linSplit(st *sState, op token.Token, as *sSym, c *big.Int) sVal {
+	var k uint
+	switch op {
+	case token.AND:
+		c1 := new(big.Int).Add(c, big.NewInt(1))
+		if c.Sign() <= 0 || c1.BitLen() > 32 || new(big.Int).And(c, c1).Sign() != 0 {
+			return nil
+		}
+		k = uint(c1.BitLen() - 1)
+	case token.SHR:
+		if c.Sign() <= 0 || c.Cmp(big.NewInt(32)) >= 0 {
+			return nil
+		}
+		k = uint(c.Int64())
+	default:
+		return nil
+	}
+	hi, lo, free, ok := e.linParts(st, as, k)
+	if !ok {
+		return nil
+	}
+	scaleDown := func(l map[string]*big.Rat) map[string]*big.Rat {
+		return linAddScaled(map[string]*big.Rat{}, l, new(big.Rat).SetFrac(big.NewInt(1), pow2(k)))
+	}
+	asBit := func(l map[string]*big.Rat) sVal {
+		// the bit itself keeps a bit representation
+		if len(l) == 1 {
+			for a, co := range l {
+				if a != "" && co.Cmp(big.NewRat(1, 1)) == 0 {
+					bits := make([]string, 64)
+					bits[0] = a
+					return symFromBits(bits)
+				}
+			}
+		}
+		if len(l) == 0 {
+			return sInt{big.NewInt(0)}
+		}
+		if len(l) == 1 && l[""] != nil && l[""].IsInt() {
+			return sInt{new(big.Int).Set(l[""].Num())}
+		}
+		return symLin(l)
+	}
+	if e.linFits(st, lo, k) {
+		if op == token.AND {
+			return asBit(linAddScaled(map[string]*big.Rat{}, lo, big.NewRat(1, 1)))
+		}
+		return asBit(scaleDown(hi))
+	}
+	if len(free) == 1 {
+		// one unknown bit in the low part: both cases
+		a := free[0]
+		c0 := new(big.Int)
+		if lo[""] != nil {
+			c0.Set(lo[""].Num())
+		}
+		c1 := new(big.Int).Add(c0, lo[a].Num())
+		m := pow2(k)
+		var r0, r1 *big.Int
+		out := map[string]*big.Rat{}
+		if op == token.AND {
+			r0, r1 = new(big.Int).Mod(c0, m), new(big.Int).Mod(c1, m)
+		} else {
+			// floor division of the low part; the high part is added below
+			r0, r1 = new(big.Int).Div(new(big.Int).Sub(c0, new(big.Int).Mod(c0, m)), m), new(big.Int).Div(new(big.Int).Sub(c1, new(big.Int).Mod(c1, m)), m)
+			out = scaleDown(hi)
+		}
+		res := map[string]*big.Rat{"": new(big.Rat).SetInt(r0), a: new(big.Rat).SetInt(new(big.Int).Sub(r1, r0))}
+		return asBit(symLin(linAddScaled(out, res, big.NewRat(1, 1))).lin)
+	}
+	return nil
+}
+
+// splitBits: x & (2^k-1) or x >> k on a linear form whose low part depends on several unknown input bits and can leave
+// [0, 2^k) (a window plus a carry bit): the state is split on those bits, one at a time, until linSplit applies
+func (e *sched) splitBits(st *sState, in ssa.Instruction) []*sState {
+	x, ok := in.(*ssa.BinOp)
+	if !ok || (x.Op != token.AND && x.Op != token.SHR) {
+		return nil
+	}
+	as, ok := e.get(st, x.X).(*sSym)
+	if !ok || as.bits != nil || len(as.lin) == 0 {
+		return nil
+	}
+	c, ok := constOf(e.get(st, x.Y))
+	if !ok {
+		return nil
+	}
+	var k uint
+	if x.Op == token.AND {
+		c1 := new(big.Int).Add(c, big.NewInt(1))
+		if c.Sign() <= 0 || c1.BitLen() > 32 || new(big.Int).And(c, c1).Sign() != 0 {
+			return nil
+		}
+		k = uint(c1.BitLen() - 1)
+	} else {
+		if c.Sign() <= 0 || c.Cmp(big.NewInt(32)) >= 0 {
+			return nil
+		}
+		k = uint(c.Int64())
+	}
+	var out []*sState
+	work := []*sState{st}
+	for len(work) > 0 {
+		cur := work[len(work)-1]
+		work = work[:len(work)-1]
+		_, lo, free, ok := e.linParts(cur, as, k)
+		if !ok || len(free) <= 1 || e.linFits(cur, lo, k) || len(out) > 256 {
+			if cur != st {
+				out = append(out, cur)
+			}
+			continue
+		}
+		other := cur.clone()
+		cur.zeros[free[0]] = true
+		other.ones[free[0]] = true
+		work = append(work, cur, other)
+	}
+	return out
+}
+
+// concretise: a symbolic integer all of whose bits are known on the path is its value (it keeps states apart like any
+// concrete value)
+func (e *sched) concretise(st *sState) {
+	for k, v := range st.vals {
+		sy, ok := v.(*sSym)
+		if !ok || sy.pred != nil || len(sy.lin) == 0 {
+			continue
+		}
+		sum := new(big.Rat)
+		known := true
+		for a, c := range sy.lin {
+			switch {
+			case a == "" || st.ones[a]:
+				sum.Add(sum, c)
+			case st.zeros[a]:
+			default:
+				known = false
+			}
+		}
+		if known && sum.IsInt() {
+			st.vals[k] = sInt{new(big.Int).Set(sum.Num())}
+		}
+	}
 }
